@@ -12,6 +12,12 @@ import (
 	"github.com/hashicorp/eventlogger"
 	"github.com/hashicorp/eventlogger/filters/encrypt"
 
+	"google.golang.org/protobuf/proto"
+
+	"google.golang.org/protobuf/types/known/structpb"
+
+	"github.com/hashicorp/eventlogger/filters/encrypt/testing/resources/protopayload"
+
 	"verifharness/internal/cryp"
 	"verifharness/internal/rt"
 )
@@ -370,6 +376,7 @@ func TestC10(t *testing.T) {
 		}
 		run.Eval("iface-fields|" + cfg.String())
 	}
+	c10Proto(run, r)
 	// root structs passed by value: input untouched, no shared memory with what is forwarded
 	nbv := run.N(3000, 60000)
 	for i := 0; i < nbv && !run.Stop(); i++ {
@@ -441,5 +448,105 @@ func TestC10(t *testing.T) {
 			run.Violation("shape:input-modified-concurrent", "concurrent Process calls on one event modified it", map[string]any{"seed": seed})
 		}
 		run.Eval("conc|" + pc.Sig)
+	}
+}
+
+// sameNonStrings compares two structpb values: same kinds everywhere, equal numbers / bools / nulls, same list
+// lengths and struct keys (strings may differ: they are what the filter protects).
+func sameNonStrings(a, b *structpb.Value, path string) string {
+	if a == nil || b == nil {
+		if a != b {
+			return path + ": one side is missing"
+		}
+		return ""
+	}
+	ka, kb := fmt.Sprintf("%T", a.GetKind()), fmt.Sprintf("%T", b.GetKind())
+	if ka != kb {
+		return fmt.Sprintf("%s: kind %s became %s", path, ka, kb)
+	}
+	switch x := a.GetKind().(type) {
+	case *structpb.Value_NumberValue:
+		if x.NumberValue != b.GetNumberValue() {
+			return fmt.Sprintf("%s: number %v became %v", path, x.NumberValue, b.GetNumberValue())
+		}
+	case *structpb.Value_BoolValue:
+		if x.BoolValue != b.GetBoolValue() {
+			return fmt.Sprintf("%s: bool changed", path)
+		}
+	case *structpb.Value_ListValue:
+		la, lb := x.ListValue.GetValues(), b.GetListValue().GetValues()
+		if len(la) != len(lb) {
+			return fmt.Sprintf("%s: list length %d became %d", path, len(la), len(lb))
+		}
+		for i := range la {
+			if why := sameNonStrings(la[i], lb[i], fmt.Sprintf("%s[%d]", path, i)); why != "" {
+				return why
+			}
+		}
+	case *structpb.Value_StructValue:
+		fa, fb := x.StructValue.GetFields(), b.GetStructValue().GetFields()
+		if len(fa) != len(fb) {
+			return fmt.Sprintf("%s: %d members became %d", path, len(fa), len(fb))
+		}
+		for k, va := range fa {
+			vb, ok := fb[k]
+			if !ok {
+				return fmt.Sprintf("%s.%s: member lost", path, k)
+			}
+			if why := sameNonStrings(va, vb, path+"."+k); why != "" {
+				return why
+			}
+		}
+	}
+	return ""
+}
+
+// c10Proto: the repository's protobuf payload with struct attributes that hold nulls, bools, numbers, lists and
+// nested structs next to strings: every non-string value is preserved, kinds and shapes stay, the input is untouched.
+func c10Proto(run *rt.Run, r *rt.Rand) {
+	n := run.N(300, 8000)
+	for i := 0; i < n && !run.Stop(); i++ {
+		cr := r.Fork()
+		mk := func() *structpb.Struct {
+			m := map[string]interface{}{
+				protopayload.IntField:            float64(cr.Intn(100)),
+				protopayload.UntaggedStringField: "some string",
+				"nullv":                          nil,
+				"boolv":                          cr.Bool(),
+				"listv":                          []interface{}{nil, float64(cr.Intn(9)), "s", true, map[string]interface{}{"in": nil, "n": 1.5}},
+				"nested":                         map[string]interface{}{"nullv": nil, "num": float64(cr.Intn(9)), "str": "x", "list": []interface{}{nil}},
+			}
+			if cr.Bool() {
+				m[protopayload.TaggedStringField] = "tagged string"
+			}
+			s, err := structpb.NewStruct(m)
+			if err != nil {
+				panic(err)
+			}
+			return s
+		}
+		p := &protopayload.WithTaggable{PublicString: "pub", SensitiveString: "sens", TaggableAttributes: mk(), NontaggableAttributes: mk()}
+		twin := proto.Clone(p).(*protopayload.WithTaggable)
+		cfg := genCfgEnc(cr)
+		res := callProcess(buildFilter(cfg), &eventlogger.Event{Type: "t", Payload: p})
+		if !proto.Equal(p, twin) {
+			run.Violation("shape:input-modified:proto", "Process modified the protobuf payload it was given", map[string]any{"config": cfg.String()})
+		}
+		if res.Panic != "" || res.Err != nil || res.Out == nil {
+			run.Eval("proto-nonstring|refused")
+			continue
+		}
+		op, ok := res.Out.Payload.(*protopayload.WithTaggable)
+		if !ok {
+			run.Violation("shape:type-changed", fmt.Sprintf("output payload type %T", res.Out.Payload), map[string]any{"config": cfg.String()})
+			continue
+		}
+		for name, pair := range map[string][2]*structpb.Struct{"TaggableAttributes": {twin.TaggableAttributes, op.TaggableAttributes}, "NontaggableAttributes": {twin.NontaggableAttributes, op.NontaggableAttributes}} {
+			if why := sameNonStrings(structpb.NewStructValue(pair[0]), structpb.NewStructValue(pair[1]), name); why != "" {
+				run.Violation("shape:non-string-not-preserved:proto", "a non-string value of a protobuf struct attribute was not preserved: "+why, map[string]any{"config": cfg.String()})
+				break
+			}
+		}
+		run.Eval("proto-nonstring|" + cfg.String())
 	}
 }
